@@ -541,3 +541,73 @@ class ContainerRemoveChildren(Contract):
 
 
 CONTRACTS = CONTRACTS + [ContainerRemoveChildren]
+
+
+class RemoveLiveChildList(Contract):
+    """`parent.remove_children(parent.children)` -- the list the parent itself hands out -- removes
+    every child: none is left in the parent's list, in the session or for a later reader."""
+    target = "geoh5py/objects/object_base.py::ObjectBase.remove_children"
+    variant = "live-child-list"
+    symbolic = False
+    has_native = True
+    props = ("C05",)
+    bounded_scope = "a point cloud with 4 data (two of them in a property group), a container group with 3 objects, a drillhole with 3 depth logs, a drillhole group with 3 holes; parent.remove_children(parent.children) and, as a control, the same with a copy of the list; the parent's child list in the session and after re-opening (exhaustive)"
+
+    def native_cases(self, tier, rng):
+        for kind in ("points", "group", "hole", "drillhole-group"):
+            for arg in ("live-list", "copy-of-the-list"):
+                yield {"kind": kind, "argument": arg}
+
+    def native_check(self, case):
+        import gc
+        import os
+        import shutil
+        import tempfile
+
+        import numpy as np
+
+        from geoh5py.groups import ContainerGroup, DrillholeGroup
+        from geoh5py.objects import Drillhole, Points
+        from geoh5py.workspace import Workspace
+
+        d = tempfile.mkdtemp()
+        try:
+            path = os.path.join(d, "l.geoh5")
+            with Workspace.create(path) as ws:
+                if case["kind"] == "points":
+                    parent = Points.create(ws, name="parent", vertices=np.zeros((3, 3)))
+                    dat = parent.add_data({k: {"values": np.arange(3.0)} for k in "abcd"})
+                    parent.add_data_to_group(dat[:2], "pg")
+                elif case["kind"] == "group":
+                    parent = ContainerGroup.create(ws, name="parent")
+                    for k in "xyz":
+                        Points.create(ws, name=k, vertices=np.zeros((2, 3)), parent=parent)
+                else:
+                    dg = DrillholeGroup.create(ws, name="parent" if case["kind"] == "drillhole-group" else "campaign")
+                    for k in (("parent",) if case["kind"] == "hole" else ("h1", "h2", "h3")):
+                        h = Drillhole.create(ws, parent=dg, name=k, collar=[0.0, 0.0, 0.0])
+                        h.add_data({c: {"depth": np.arange(3.0), "values": np.arange(3.0)} for c in "abc"})
+                    parent = dg if case["kind"] == "drillhole-group" else h
+                    del h, dg
+                n = len(parent.children)
+                try:
+                    parent.remove_children(parent.children if case["argument"] == "live-list" else list(parent.children))
+                except Exception as exc:
+                    return f"{type(parent).__name__}.remove_children(its {n} children, {case['argument']}) raised {type(exc).__name__}: {exc} ({case})"
+                left = [getattr(c, "name", "?") for c in parent.children]
+                if left:
+                    return f"{type(parent).__name__}.remove_children(parent.children): {len(left)} of {n} children are still listed: {left} ({case})"
+                del parent
+                gc.collect()
+            with Workspace(path, mode="r") as ws:
+                back = ws.get_entity("parent")[0]
+                left = [getattr(c, "name", "?") for c in back.children] + list(getattr(back, "get_data_list", lambda: [])())
+                left = [x for x in left if x not in ("DEPTH", "FROM", "TO")]
+                if left:
+                    return f"after remove_children(parent.children) and a re-open the parent lists {left} again ({case})"
+            return None
+        finally:
+            shutil.rmtree(d, ignore_errors=True)
+
+
+CONTRACTS = CONTRACTS + [RemoveLiveChildList]
